@@ -13,7 +13,8 @@ HERE = os.path.dirname(os.path.abspath(__file__))
 def _reexec():
     env = dict(os.environ)
     env["PYTHONHASHSEED"] = "0"
-    env["PYTHONPATH"] = "/repo/src" + os.pathsep + HERE + (os.pathsep + env["PYTHONPATH"] if env.get("PYTHONPATH") else "")
+    # VERIF_REPO: the tree under test (default /repo; a scratch worktree when trying seeded changes)
+    env["PYTHONPATH"] = os.path.join(env.get("VERIF_REPO") or "/repo", "src") + os.pathsep + HERE + (os.pathsep + env["PYTHONPATH"] if env.get("PYTHONPATH") else "")
     env["VERIF_REEXEC"] = "1"
     env.setdefault("OMP_NUM_THREADS", "1")
     env.setdefault("OPENBLAS_NUM_THREADS", "1")
